@@ -78,6 +78,11 @@ class Gen:
         self.test_names = []
         self.targets = {}            # per block key -> list of (var, kind, nout)
         self.top_str_opts = []
+        self.top_opts = {}
+        self.subprojects_used = []
+        self.global_opts = {}        # built-in options set globally on the command line
+        self.configure_args = []     # a later `meson configure` (swaps the overrides)
+        self.yield_opts = os.environ.get('C15_YIELD_OPTIONS', '1') == '1'   # on by default since fix 8eee044
         # build_subdir: (meson >= 1.10) on a share of the targets; decided per project, together with the layout
         self.flat = rng is not None and rng.random() < 0.12
         # (also combined with --layout=flat: intro-targets.json said meson-out/<output> where build.ninja produces
@@ -117,6 +122,8 @@ class Gen:
                 lines.append("option(%s, type: 'combo', choices: ['x', 'y', 'z'], value: %s)" % (mstr(name), mstr(rng.choice('xyz'))))
             else:
                 lines.append("option(%s, type: 'feature', value: %s)" % (mstr(name), mstr(rng.choice(['auto', 'enabled', 'disabled']))))
+            if sp and self.yield_opts and self.top_opts.get(name) == k and rng.random() < 0.5:
+                lines[-1] = lines[-1][:-1] + ', yield: true)'
             opts.append((name, k))
             if rng.random() < 0.35:
                 v = {'string': rng.choice(['cli', 'with space', 'p/q']), 'boolean': rng.choice(['true', 'false']),
@@ -144,15 +151,52 @@ class Gen:
             blk.lines.append("message('OPT %s%s=' + %s)" % (pre, name, e))
         builtins = [('prefix', 's'), ('bindir', 's'), ('datadir', 's'), ('includedir', 's'), ('mandir', 's'), ('libdir', 's'),
                     ('buildtype', 's'), ('optimization', 's'), ('debug', 'b'), ('warning_level', 's'), ('default_library', 's'),
-                    ('werror', 'b'), ('strip', 'b'), ('unity', 's'), ('layout', 's'), ('install_umask', 'u')]
+                    ('werror', 'b'), ('strip', 'b'), ('unity', 's'), ('layout', 's'), ('backend_max_links', 'i'), ('licensedir', 's'),
+                    ('sysconfdir', 's'), ('auto_features', 'f')]
         if self.use_c:
-            builtins += [('c_std', 's'), ('b_ndebug', 's'), ('b_lto', 'b'), ('c_args', 'a')]
-        for name, k in self.rng.sample(builtins, min(len(builtins), 8)):
+            builtins += [('c_std', 's'), ('b_ndebug', 's'), ('b_lto', 'b'), ('b_staticpic', 'b'), ('b_lto_threads', 'i'),
+                         ('c_args', 'a'), ('c_link_args', 'a')]
+        # every built-in of the list is observed in every (sub)project: a per-subproject override must show up as the
+        # value get_option() returns there
+        for name, k in builtins:
             g = "get_option(%s)" % mstr(name)
-            e = {'s': g, 'b': g + '.to_string()', 'a': "','.join(%s)" % g, 'u': g + '.to_string()'}[k]
-            if k == 'u':
-                continue
+            if k == 'f':
+                v = 'f%d' % self.uid()
+                blk.lines.append('%s = %s' % (v, g))
+                e = "(%s.enabled() ? 'enabled' : '') + (%s.disabled() ? 'disabled' : '') + (%s.auto() ? 'auto' : '')" % (v, v, v)
+            else:
+                e = {'s': g, 'b': g + '.to_string()', 'i': g + '.to_string()', 'a': "','.join(%s)" % g}[k]
             blk.lines.append("message('OPT %s%s=' + %s)" % (pre, name, e))
+
+    def contrast_overrides(self, sps):
+        """Per-subproject overrides of built-in / base / compiler options whose value is falsy against a truthy global
+        value and the reverse, for every value type; plus the `meson configure` arguments that swap them later."""
+        rng = self.rng
+        table = [('werror', 'b'), ('debug', 'B'), ('backend_max_links', 'i'), ('licensedir', 's')]
+        if not self.use_c:
+            table.append(('strip', 'b'))          # (stripping the fake binaries of C projects would fail at install time)
+        else:
+            table += [('b_lto', 'b'), ('b_staticpic', 'b'), ('b_lto_threads', 'i'), ('c_args', 'a'), ('c_link_args', 'l')]
+        truthy = {'b': 'true', 'B': 'true', 'i': '3', 's': 'lic', 'a': '-DA,-DB', 'l': '-lm'}
+        falsy = {'b': 'false', 'B': 'false', 'i': '0', 's': '', 'a': '', 'l': ''}
+        for sp in sps:
+            for name, k in table:
+                if rng.random() >= 0.4:
+                    continue
+                if k == 'B':                      # debug follows buildtype globally: override in the subproject only
+                    sub = rng.choice(['true', 'false'])
+                    self.setup_args.append('-D%s:%s=%s' % (sp, name, sub))
+                    self.configure_args.append('-D%s:%s=%s' % (sp, name, 'false' if sub == 'true' else 'true'))
+                    continue
+                if name not in self.global_opts:
+                    self.global_opts[name] = rng.choice([truthy[k], falsy[k]])
+                gv = self.global_opts[name]
+                sv = falsy[k] if gv == truthy[k] else truthy[k]
+                self.setup_args.append('-D%s:%s=%s' % (sp, name, sv))
+                # later: swap (the global one only once)
+                self.configure_args.append('-D%s:%s=%s' % (sp, name, gv))
+                if ('-D%s=%s' % (name, sv)) not in self.configure_args and not any(a.startswith('-D%s=' % name) for a in self.configure_args):
+                    self.configure_args.append('-D%s=%s' % (name, sv))
 
     # --- targets
     def custom_target(self, blk, avail):
@@ -502,6 +546,7 @@ class Gen:
         self.expected_def_files.add('meson.build')
         opts = self.option_file(top, '')
         self.top_str_opts = [n for n, k in opts if k == 'string']
+        self.top_opts = dict(opts)
         self.option_messages(top, '', opts)
         top.lines.append("gen = find_program('gen.py')")
         top.lines.append("tp = find_program('tp.py')")
@@ -535,6 +580,7 @@ class Gen:
             self.add_file(sb.path('meson.build'), '\n'.join(sb.lines) + '\n')
             self.expected_def_files.add(sb.path('meson.build'))
             top.lines.append('subproject(%s)' % mstr(sp))
+            self.subprojects_used.append(sp)
             if rng.random() < 0.4:
                 self.setup_args.append('-D%s:default_library=%s' % (sp, rng.choice(['static', 'shared'])))
         if rng.random() < 0.3:
@@ -550,7 +596,10 @@ class Gen:
                         ('buildtype', ['release', 'debugoptimized', 'plain']), ('warning_level', ['0', '3']),
                         ('default_library', ['static', 'both']), ('werror', ['true']), ('unity', ['off'])):
             if rng.random() < 0.2:
-                self.setup_args.append('-D%s=%s' % (o, rng.choice(vals)))
+                self.global_opts[o] = rng.choice(vals)
+        self.contrast_overrides(self.subprojects_used)
+        for o, v in self.global_opts.items():
+            self.setup_args.append('-D%s=%s' % (o, v))
         if self.flat:
             self.setup_args.append('--layout=flat')
         return self
@@ -975,15 +1024,18 @@ def observe(g, res, root, reserved, thorough=False):
     # ---- (d) options
     ob.I['opts'] = [(o['name'], canon_val(o['value'])) for o in buildopts]
     names = {o['name'] for o in buildopts}
-    for line in res['stdout'].splitlines():
-        m = re.search(r'Message: OPT ([^=]+)=(.*)$', line)
-        if m:
-            n, v = m.group(1), m.group(2)
-            raw = n
-            if n not in names and ':' in n:
-                n = n.split(':', 1)[1]      # no `sub:name` entry: the subproject sees the global option
-            ob.W['opts'].append((n, v))
-            ob.opt_raw.append(raw)
+    ob.pending_opts = (res['stdout'], names)
+
+    def observed_opts(stdout, intro_names, prefix=''):
+        for line in stdout.splitlines():
+            m = re.search(r'Message: OPT ([^=]+)=(.*)$', line)
+            if m:
+                n, v = m.group(1), m.group(2)
+                raw = n
+                if n not in intro_names and ':' in n:
+                    n = n.split(':', 1)[1]      # no `sub:name` entry: the subproject sees the global option
+                ob.W['opts'].append((prefix + n, v))
+                ob.opt_raw.append(prefix + raw)
 
     # ---- (c) install
     optmap = {o['name']: canon_val(o['value']) for o in buildopts}
@@ -1018,9 +1070,30 @@ def observe(g, res, root, reserved, thorough=False):
         files, dirs, links = walk_tree(dest) if os.path.isdir(dest) else ([], [], [])
         ob.W['runs'].append({'tags': sel, 'files': files, 'dirs': dirs, 'links': links if not sel else []})
 
+    observed_opts(*ob.pending_opts)
     # ---- (e) build-definition files
     ob.I['files'] = [os.path.relpath(f, src) if os.path.isabs(f) else f for f in bsfiles]
     ob.W['files'] = sorted(opened_files(res['strace'], src)) if res.get('strace') else sorted(g.expected_def_files)
+
+    # ---- (d') options again after `meson configure` (writes intro-buildoptions.json on its own) and what get_option()
+    # returns at the next reconfiguration; last, because it rewrites the build directory
+    if getattr(g, 'configure_args', None) and getattr(g, 'do_configure', False):
+        r = run_meson(['configure', bld] + g.configure_args, cwd=root)
+        ob.notes.append('meson configure rc=%d' % r.returncode)
+        if r.returncode == 0:
+            bo2 = J('buildoptions')
+            r2 = run_meson(['setup', '--reconfigure', src, bld], cwd=root)
+            ob.notes.append('meson setup --reconfigure rc=%d' % r2.returncode)
+            if r2.returncode == 0:
+                ob.I['opts'] += [('cfg/' + o['name'], canon_val(o['value'])) for o in bo2]
+                observed_opts(r2.stdout, {o['name'] for o in bo2}, 'cfg/')
+                bo3 = J('buildoptions')       # and the file the reconfiguration itself wrote
+                ob.I['opts'] += [('recfg/' + o['name'], canon_val(o['value'])) for o in bo3]
+                observed_opts(r2.stdout, {o['name'] for o in bo3}, 'recfg/')
+            else:
+                ob.notes.append((r2.stdout + r2.stderr)[-500:])
+        else:
+            ob.notes.append((r.stdout + r.stderr)[-500:])
     return ob
 
 
